@@ -1,6 +1,6 @@
 (** The worker loop keeps the simulation invariant. *)
 From OCV Require Import Base.Prelude Misc.Time Queue.PMap Queue.OWS Queue.OWSOracle Queue.OWSLemmas Queue.OWSModel Queue.OWSStep.
-From OCV Require Import Coroutine.Co Coroutine.CoLemmas Sched.Sched Sched.Pool Sched.PoolOracle Sched.PoolBase Sched.PoolWf Sched.PoolQ Sched.PoolJ Sched.PoolJLemmas Sched.PoolCanon Sched.PoolUnfold Sched.PoolJStep.
+From OCV Require Import Coroutine.Co Coroutine.CoLemmas Sched.Sched Sched.Pool Sched.PoolOracle Sched.PoolBase Sched.PoolWf Sched.PoolQ Sched.PoolJ Sched.PoolJLemmas Sched.PoolCanon Sched.PoolUnfold Sched.PoolMeasure Sched.PoolJStep.
 From Coq Require Import ZifyBool ZifyNat.
 Open Scope Z_scope.
 
@@ -71,11 +71,15 @@ Lemma hole_ok_intro x w k m :
   match k_task k with Some (_, rest) => body_from m rest = true | None => m = MRun end -> hole_ok x w.
 Proof. intros. exists k, m. auto 10. Qed.
 
+Definition wl_cost (out : wout) : Z := match out with WYield => 3 | _ => 0 end.
+
 Definition WL (f : nat) : Prop := forall tnt x d w acc t,
   J mx tnt x d (Some w) t -> quiet_off t -> G mx x (Some w) -> hole_ok x w -> ~ In w (pw_cancel_cos x) -> pw_ts x = [] ->
   exists x' evs out, wloop f x w acc = (x', acc ++ evs, out) /\
     J mx tnt x' d (Some w) (fold_left pev evs t) /\ G mx x' (Some w) /\
-    pw_cancel_cos x' = pw_cancel_cos x /\ pw_tbody x' = pw_tbody x /\ wl_post x' w out.
+    pw_cancel_cos x' = pw_cancel_cos x /\ pw_tbody x' = pw_tbody x /\ pw_clock x <= pw_clock x' /\ wl_post x' w out /\
+    rho x' + wl_cost out <= rho x /\
+    (forall k, get_worker x w = Some k -> (mu x k <= f)%nat -> out <> WFuel).
 
 Lemma quiet_off_fold t e : quiet_off t -> quiet_off (fold_left pev e t).
 Proof. unfold quiet_off. rewrite po_pools_fold_pev. auto. Qed.
@@ -83,26 +87,35 @@ Proof. unfold quiet_off. rewrite po_pools_fold_pev. auto. Qed.
 Lemma wl_chain f tnt x x1 d w acc e t :
   WL f -> J mx tnt x1 d (Some w) (fold_left pev e t) -> quiet_off t -> G mx x1 (Some w) -> hole_ok x1 w ->
   pw_cancel_cos x1 = pw_cancel_cos x -> ~ In w (pw_cancel_cos x) -> pw_ts x1 = [] -> pw_tbody x1 = pw_tbody x ->
+  pw_clock x <= pw_clock x1 -> rho x1 <= rho x ->
+  (forall k, get_worker x w = Some k -> (mu x k <= S f)%nat -> exists k1, get_worker x1 w = Some k1 /\ (mu x1 k1 <= f)%nat) ->
   exists x' evs out, wloop f x1 w (acc ++ e) = (x', acc ++ evs, out) /\
     J mx tnt x' d (Some w) (fold_left pev evs t) /\ G mx x' (Some w) /\
-    pw_cancel_cos x' = pw_cancel_cos x /\ pw_tbody x' = pw_tbody x /\ wl_post x' w out.
+    pw_cancel_cos x' = pw_cancel_cos x /\ pw_tbody x' = pw_tbody x /\ pw_clock x <= pw_clock x' /\ wl_post x' w out /\
+    rho x' + wl_cost out <= rho x /\
+    (forall k, get_worker x w = Some k -> (mu x k <= S f)%nat -> out <> WFuel).
 Proof.
-  intros HWL HJ Hq HG Hh Ecc Hncc Hts Etb.
+  intros HWL HJ Hq HG Hh Ecc Hncc Hts Etb Hclk Hrho Hmu.
   destruct (HWL tnt x1 d w (acc ++ e) (fold_left pev e t) HJ (quiet_off_fold _ _ Hq) HG Hh ltac:(rewrite Ecc; exact Hncc) Hts)
-    as (x' & evs & out & Ew & HJ' & HG' & Ecc' & Etb' & Hpost).
+    as (x' & evs & out & Ew & HJ' & HG' & Ecc' & Etb' & Hclk' & Hpost & Hr' & Hf').
   exists x', (e ++ evs), out. rewrite app_assoc, fold_pev_app. split; [exact Ew|].
-  split; [exact HJ'|]. split; [exact HG'|]. split; [congruence|]. split; [congruence | exact Hpost].
+  split; [exact HJ'|]. split; [exact HG'|]. split; [congruence|]. split; [congruence|]. split; [lia|]. split; [exact Hpost|].
+  split; [lia|]. intros k Hk Hm. destruct (Hmu k Hk Hm) as (k1 & Hk1 & Hm1). apply (Hf' k1 Hk1 Hm1).
 Qed.
 
 Lemma wl_chain0 f tnt x x1 d w acc t :
   WL f -> J mx tnt x1 d (Some w) t -> quiet_off t -> G mx x1 (Some w) -> hole_ok x1 w ->
   pw_cancel_cos x1 = pw_cancel_cos x -> ~ In w (pw_cancel_cos x) -> pw_ts x1 = [] -> pw_tbody x1 = pw_tbody x ->
+  pw_clock x <= pw_clock x1 -> rho x1 <= rho x ->
+  (forall k, get_worker x w = Some k -> (mu x k <= S f)%nat -> exists k1, get_worker x1 w = Some k1 /\ (mu x1 k1 <= f)%nat) ->
   exists x' evs out, wloop f x1 w acc = (x', acc ++ evs, out) /\
     J mx tnt x' d (Some w) (fold_left pev evs t) /\ G mx x' (Some w) /\
-    pw_cancel_cos x' = pw_cancel_cos x /\ pw_tbody x' = pw_tbody x /\ wl_post x' w out.
+    pw_cancel_cos x' = pw_cancel_cos x /\ pw_tbody x' = pw_tbody x /\ pw_clock x <= pw_clock x' /\ wl_post x' w out /\
+    rho x' + wl_cost out <= rho x /\
+    (forall k, get_worker x w = Some k -> (mu x k <= S f)%nat -> out <> WFuel).
 Proof.
-  intros HWL HJ Hq HG Hh Ecc Hncc Hts Etb.
-  destruct (wl_chain f tnt x x1 d w acc [] t HWL HJ Hq HG Hh Ecc Hncc Hts Etb) as (x' & evs & out & Ew & H).
+  intros HWL HJ Hq HG Hh Ecc Hncc Hts Etb Hclk Hrho Hmu.
+  destruct (wl_chain f tnt x x1 d w acc [] t HWL HJ Hq HG Hh Ecc Hncc Hts Etb Hclk Hrho Hmu) as (x' & evs & out & Ew & H).
   rewrite app_nil_r in Ew. exists x', evs, out. split; [exact Ew | exact H].
 Qed.
 
@@ -114,10 +127,14 @@ Proof. unfold G. intros -> -> ->. auto. Qed.
 Lemma WL_0 : WL 0.
 Proof.
   intros tnt x d w acc t HJ Hq HG Hh Hncc Hts. exists x, [], WFuel. cbn [wloop fold_left wl_post]. rewrite app_nil_r.
-  split; [reflexivity|]. split; [exact HJ|]. split; [exact HG|]. auto.
+  split; [reflexivity|]. split; [exact HJ|]. split; [exact HG|]. split; [reflexivity|]. split; [reflexivity|]. split; [lia|]. split; [exact I|].
+  split; [cbn [wl_cost]; lia|]. intros k Hk Hm. unfold mu in Hm. lia.
 Qed.
 
 (** the finishing branches *)
+Lemma mu_same_q x x' k k' : pw_tq x' = pw_tq x -> pw_tbody x' = pw_tbody x -> tasklen k' = tasklen k -> mu x' k' = mu x k.
+Proof. unfold mu. intros -> -> ->. reflexivity. Qed.
+
 Lemma wl_finish f tnt x d w acc t k i rest r e :
   WL f -> J mx tnt x d (Some w) t -> quiet_off t -> get_worker x w = Some k -> live k = true -> k_dead k = false ->
   k_tpool k = 0%nat -> imode (k_st k) = Some MRun -> k_task k = Some (i, rest) ->
@@ -126,16 +143,23 @@ Lemma wl_finish f tnt x d w acc t k i rest r e :
   exists x' evs out,
     fin_cont f w (acc ++ [e]) 0 (finish_task (upd_worker x w (with_task k None)) 0 i r) = (x', acc ++ evs, out) /\
     J mx tnt x' d (Some w) (fold_left pev evs t) /\ G mx x' (Some w) /\
-    pw_cancel_cos x' = pw_cancel_cos x /\ pw_tbody x' = pw_tbody x /\ wl_post x' w out.
+    pw_cancel_cos x' = pw_cancel_cos x /\ pw_tbody x' = pw_tbody x /\ pw_clock x <= pw_clock x' /\ wl_post x' w out /\
+    rho x' + wl_cost out <= rho x /\
+    (forall k0, get_worker x w = Some k0 -> (mu x k0 <= S f)%nat -> out <> WFuel).
 Proof.
   intros HWL HJ Hq Hk Hl Hdead Htp Him Htask Hncc Hts Hev Hrout.
   destruct (J_finish mx tnt x d w t k i rest r HJ Hq Hk Hl Htask Hrout) as (xf & Ef & HJ' & Hm & Hw' & HG').
+  pose proof (finish_rho x w k i r xf (jp_pools _ _ _ (j_p _ _ _ _ _ _ _ HJ)) Hk Hl Ef) as Hrho.
   rewrite Ef. cbn [fin_cont]. cbv zeta in HJ', Hm, Hw', HG'. set (xg := upd_pool xf 0 (p_with_popfail 0)) in *.
   destruct Hm as [M1 M2 M3 M4 M5 M6].
   eapply (wl_chain f tnt x xg d w acc [e] t); try eassumption.
   - cbn [fold_left]. rewrite Hev. exact HJ'.
   - eapply hole_ok_intro; [exact Hw' | exact Hl | exact Hdead | exact Htp | exact Him | reflexivity].
   - congruence.
+  - lia.
+  - lia.
+  - intros k0 Hk0 Hm0. rewrite Hk in Hk0. injection Hk0 as <-. exists (with_task k None). split; [exact Hw'|].
+    unfold mu in *. rewrite M5, M6. unfold tasklen in *. cbn [with_task k_task]. rewrite Htask in Hm0. lia.
 Qed.
 
 Lemma tr_syscall_imode s m y name st :
@@ -154,6 +178,7 @@ Proof.
   intros HWL tnt x d w acc t HJ Hq HG Hh Hncc Hts.
   destruct Hh as (k & m & Hk & Hl & Hdead & Htp & Him & Hbody).
   pose proof (jp_cur _ _ _ (j_p _ _ _ _ _ _ _ HJ)) as Hcur.
+  pose proof (jp_pools _ _ _ (j_p _ _ _ _ _ _ _ HJ)) as Hpools.
   rewrite (wloop_S f x w acc k Hk). cbv zeta. rewrite Hcur, ?Htp.
   destruct (k_task k) as [[i body]|] eqn:Htask.
   - destruct body as [|ins rest].
@@ -173,6 +198,12 @@ Proof.
       assert (pw_ts x0 = []) as Hts0 by exact Hts.
       assert (pw_tbody x0 = pw_tbody x) as Etb0 by reflexivity.
       assert (live k0 = true) as Hl0 by exact Hl.
+      assert (rho x0 + 3 = rho x) as Hrho0.
+      { pose proof (rho_upd_worker x w k k0 Hk) as H1. rewrite (wwork_live k Hl), (wwork_live k0 Hl0), Hl, Hl0 in H1.
+        unfold tasklen in H1. rewrite Htask in H1. cbn [k0 with_task k_task length] in H1. unfold x0. lia. }
+      assert (forall kk, get_worker x w = Some kk -> (mu x kk <= S f)%nat -> (mu x0 k0 <= f)%nat) as Hmu0.
+      { intros kk Hkk Hm. rewrite Hk in Hkk. injection Hkk as <-. unfold mu in *. unfold tasklen in *. rewrite Htask in Hm.
+        cbn [k0 with_task k_task length] in *. change (pw_tq x0) with (pw_tq x). change (pw_tbody x0) with (pw_tbody x). lia. }
       assert (forall m', imode (k_st k0) = Some m' -> body_from m' rest = true -> hole_ok x0 w) as Hh0.
       { intros m' H1 H2. eapply hole_ok_intro; [exact Hk0 | exact Hl0 | exact Hdead | exact Htp | exact H1 | exact H2]. }
       assert (forall m', body_from (match m with MRun => MRun | MSusp n => MWoken n | _ => m' end) rest = true ->
@@ -186,24 +217,27 @@ Proof.
       * (* ISuspend *)
         pose proof (HJ0' eq_refl) as HJ0.
         exists x0, [EB i (BYield y RNone)], WYield. split; [reflexivity|].
-        split; [exact HJ0|]. split; [exact HG0|]. split; [exact Ecc0|]. split; [exact Etb0|].
-        exists k0, i, rest. split; [exact Hk0|]. split; [exact Hl0|]. split; [exact Hdead|]. split; [exact Htp|].
-        split; [rewrite Hts0; cbn; lia|]. split; [reflexivity|].
-        apply (Hyield MRun); destruct m; try discriminate; auto.
+        split; [exact HJ0|]. split; [exact HG0|]. split; [exact Ecc0|]. split; [exact Etb0|]. split; [apply Z.le_refl|]. split.
+        { exists k0, i, rest. split; [exact Hk0|]. split; [exact Hl0|]. split; [exact Hdead|]. split; [exact Htp|].
+          split; [rewrite Hts0; cbn; lia|]. split; [reflexivity|].
+          apply (Hyield MRun); destruct m; try discriminate; auto. }
+        split; [cbn [wl_cost]; lia | discriminate].
       * (* IDelay *)
         pose proof (HJ0' eq_refl) as HJ0.
         eexists _, [EB i (BYield y (RDelay dd))], WYield. split; [reflexivity|].
-        split; [apply J_set_req, HJ0|]. split; [exact HG0|]. split; [exact Ecc0|]. split; [exact Etb0|].
-        exists k0, i, rest. split; [exact Hk0|]. split; [exact Hl0|]. split; [exact Hdead|]. split; [exact Htp|].
-        split; [autorewrite with pw; rewrite Hts0; cbn; lia|]. split; [reflexivity|].
-        apply (Hyield MRun); destruct m; try discriminate; auto.
+        split; [apply J_set_req, HJ0|]. split; [exact HG0|]. split; [exact Ecc0|]. split; [exact Etb0|]. split; [apply Z.le_refl|]. split.
+        { exists k0, i, rest. split; [exact Hk0|]. split; [exact Hl0|]. split; [exact Hdead|]. split; [exact Htp|].
+          split; [autorewrite with pw; rewrite Hts0; cbn; lia|]. split; [reflexivity|].
+          apply (Hyield MRun); destruct m; try discriminate; auto. }
+        split; [cbn [wl_cost]; change (rho (set_req x0 _ _)) with (rho x0); lia | discriminate].
       * (* IUntil *)
         pose proof (HJ0' eq_refl) as HJ0.
         eexists _, [EB i (BYield y (RUntil ts))], WYield. split; [reflexivity|].
-        split; [apply J_set_req, HJ0|]. split; [exact HG0|]. split; [exact Ecc0|]. split; [exact Etb0|].
-        exists k0, i, rest. split; [exact Hk0|]. split; [exact Hl0|]. split; [exact Hdead|]. split; [exact Htp|].
-        split; [autorewrite with pw; rewrite Hts0; cbn; lia|]. split; [reflexivity|].
-        apply (Hyield MRun); destruct m; try discriminate; auto.
+        split; [apply J_set_req, HJ0|]. split; [exact HG0|]. split; [exact Ecc0|]. split; [exact Etb0|]. split; [apply Z.le_refl|]. split.
+        { exists k0, i, rest. split; [exact Hk0|]. split; [exact Hl0|]. split; [exact Hdead|]. split; [exact Htp|].
+          split; [autorewrite with pw; rewrite Hts0; cbn; lia|]. split; [reflexivity|].
+          apply (Hyield MRun); destruct m; try discriminate; auto. }
+        split; [cbn [wl_cost]; change (rho (set_req x0 _ _)) with (rho x0); lia | discriminate].
       * discriminate.
       * (* ISyscall *)
         pose proof (HJ0' eq_refl) as HJ0.
@@ -213,45 +247,57 @@ Proof.
         { destruct st; try discriminate; cbn [imode]; eauto. }
         destruct (J_k_change mx tnt x0 d w t k0 (Syscall y name st) HJ0 Hq Hk0 Hl0 ltac:(discriminate))
           as (x1 & Ekc & HJ1 & Hm1 & Hk1 & HG1a & HG1b & HG1c).
+        destruct (k_change_rho x0 w k0 (Syscall y name st) x1 _ Hpools Hcur Hk0 Hl0 Ekc) as [Hr1 _]. cbn [terminal creator_grows] in Hr1.
         rewrite Ekc. destruct Hm1 as [M1 M2 M3 M4 M5 M6].
         replace (acc ++ [EL 0 w (CbChanged (Syscall y name st)) (k_st k0)] ++ [EB i (BRes true)])
           with (acc ++ [EL 0 w (CbChanged (Syscall y name st)) (k_st k0); EB i (BRes true)]) by reflexivity.
-        eapply (wl_chain f tnt x x1 d w acc _ t HWL); [exact HJ1 | exact Hq | | | congruence | exact Hncc | congruence | congruence].
+        eapply (wl_chain f tnt x x1 d w acc _ t HWL); [exact HJ1 | exact Hq | | | congruence | exact Hncc | congruence | congruence | rewrite M4; apply Z.le_refl | lia |].
         -- apply G_None_any, HG1a. reflexivity.
         -- eapply hole_ok_intro; [exact Hk1 | reflexivity | exact Hdead | exact Htp | exact Him' | exact Hbody'].
+        -- intros kk Hkk Hm. exists (with_st k0 (Syscall y name st)). split; [exact Hk1|].
+           rewrite (mu_same_q x0 x1 k0 (with_st k0 (Syscall y name st)) M5 M6 eq_refl). eapply Hmu0; eassumption.
       * (* IRunning *)
         pose proof (HJ0' eq_refl) as HJ0.
         destruct m as [|n|n|n]; try discriminate.
         -- pose proof (imode_MRun _ Him) as Est. rewrite Est. cbn [tr_running].
            eapply (wl_chain f tnt x x0 d w acc [EB i (BRes true)] t HWL);
-             [exact HJ0 | exact Hq | exact HG0 | | exact Ecc0 | exact Hncc | exact Hts0 | exact Etb0].
-           apply (Hh0 MRun); [exact Him | exact Hbody].
+             [exact HJ0 | exact Hq | exact HG0 | | exact Ecc0 | exact Hncc | exact Hts0 | exact Etb0 | apply Z.le_refl | lia |].
+           ++ apply (Hh0 MRun); [exact Him | exact Hbody].
+           ++ intros kk Hkk Hm. exists k0. split; [exact Hk0 | eapply Hmu0; eassumption].
         -- destruct (imode_MExec _ _ Him) as [y0 Est]. rewrite Est. cbn [tr_running].
            destruct (J_k_change mx tnt x0 d w t k0 Running HJ0 Hq Hk0 Hl0 ltac:(discriminate))
              as (x1 & Ekc & HJ1 & Hm1 & Hk1 & HG1a & HG1b & HG1c).
+           destruct (k_change_rho x0 w k0 Running x1 _ Hpools Hcur Hk0 Hl0 Ekc) as [Hr1 _]. cbn [terminal creator_grows] in Hr1.
            rewrite Ekc. destruct Hm1 as [M1 M2 M3 M4 M5 M6].
            replace (acc ++ [EL 0 w (CbChanged Running) (k_st k0)] ++ [EB i (BRes true)])
              with (acc ++ [EL 0 w (CbChanged Running) (k_st k0); EB i (BRes true)]) by reflexivity.
-           eapply (wl_chain f tnt x x1 d w acc _ t HWL); [exact HJ1 | exact Hq | | | congruence | exact Hncc | congruence | congruence].
+           eapply (wl_chain f tnt x x1 d w acc _ t HWL); [exact HJ1 | exact Hq | | | congruence | exact Hncc | congruence | congruence | rewrite M4; apply Z.le_refl | lia |].
            ++ apply HG1b; auto.
            ++ eapply hole_ok_intro; [exact Hk1 | reflexivity | exact Hdead | exact Htp | reflexivity | exact Hbody].
+           ++ intros kk Hkk Hm. exists (with_st k0 Running). split; [exact Hk1|].
+              rewrite (mu_same_q x0 x1 k0 (with_st k0 Running) M5 M6 eq_refl). eapply Hmu0; eassumption.
         -- destruct (imode_MWoken _ _ Him) as [y0 Est]. rewrite Est. cbn [tr_running].
            eapply (wl_chain f tnt x x0 d w acc [EB i (BRes true)] t HWL);
-             [exact HJ0 | exact Hq | exact HG0 | | exact Ecc0 | exact Hncc | exact Hts0 | exact Etb0].
-           apply (Hh0 (MWoken n)); [exact Him | exact Hbody].
+             [exact HJ0 | exact Hq | exact HG0 | | exact Ecc0 | exact Hncc | exact Hts0 | exact Etb0 | apply Z.le_refl | lia |].
+           ++ apply (Hh0 (MWoken n)); [exact Him | exact Hbody].
+           ++ intros kk Hkk Hm. exists k0. split; [exact Hk0 | eapply Hmu0; eassumption].
       * (* ITick *)
         pose proof (HJ0' eq_refl) as HJ0.
         apply andb_true_iff in Hbody as [Hd Hbody].
         eapply (wl_chain f tnt x _ d w acc [EB i (BTick dd)] t HWL);
-          [ | exact Hq | | | exact Ecc0 | exact Hncc | exact Hts0 | exact Etb0].
+          [ | exact Hq | | | exact Ecc0 | exact Hncc | exact Hts0 | exact Etb0 | | | ].
         -- cbn [fold_left]. apply J_tick; [exact HJ0 | lia].
         -- eapply G_frame; [| | | exact HG0]; reflexivity.
         -- eapply hole_ok_intro; [exact Hk0 | exact Hl0 | exact Hdead | exact Htp | exact Him | exact Hbody].
+        -- autorewrite with pw. apply (sat_add64_mono (pw_clock x) dd); [apply (jp_clock _ _ _ (j_p _ _ _ _ _ _ _ HJ)) | lia].
+        -- change (rho (set_clockp x0 _)) with (rho x0). lia.
+        -- intros kk Hkk Hm. exists k0. split; [exact Hk0 | eapply Hmu0; eassumption].
       * (* ILog *)
         pose proof (HJ0' eq_refl) as HJ0.
         eapply (wl_chain f tnt x x0 d w acc [EB i (BLog n)] t HWL);
-          [exact HJ0 | exact Hq | exact HG0 | | exact Ecc0 | exact Hncc | exact Hts0 | exact Etb0].
-        apply (Hh0 m); [exact Him | exact Hbody].
+          [exact HJ0 | exact Hq | exact HG0 | | exact Ecc0 | exact Hncc | exact Hts0 | exact Etb0 | apply Z.le_refl | lia |].
+        -- apply (Hh0 m); [exact Him | exact Hbody].
+        -- intros kk Hkk Hm. exists k0. split; [exact Hk0 | eapply Hmu0; eassumption].
       * (* IReturn *)
         destruct m; try discriminate.
         eapply (wl_finish f tnt x d w acc t k i (IReturn v :: rest) (TOk v) _ HWL HJ Hq Hk Hl Hdead Htp Him Htask Hncc Hts); reflexivity.
@@ -266,17 +312,26 @@ Proof.
     destruct (Q1_lpop_cases _ _ _ _ HQt Epop) as [HQ' [(tz & -> & Hcnt)|(-> & Hnil & Hnil')]].
     + destruct (mem_nat (Z.to_nat tz) (pw_cancel_tasks x)) eqn:Em.
       * destruct (J_pop_cancel mx tnt x d w t k q' tz HJ Hq Hk Hl HQ' Hcnt Em) as (HJ1 & Ecc1 & Ets1 & Hk1 & Etb1).
+        pose proof (pop_cancel_rho x q' tz Hpools Hcnt) as Hr1.
         cbv zeta in *. set (xg := pop_cancel x 0 q' (Z.to_nat tz)) in *.
-        eapply (wl_chain0 f tnt x xg d w acc t HWL); [exact HJ1 | exact Hq | | | exact Ecc1 | exact Hncc | congruence | exact Etb1].
+        destruct (pop_cancel_post x q' (Z.to_nat tz) Hpools) as (W0 & R0 & N0 & Hu0 & _). fold xg in Hu0.
+        eapply (wl_chain0 f tnt x xg d w acc t HWL); [exact HJ1 | exact Hq | | | exact Ecc1 | exact Hncc | congruence | exact Etb1 | rewrite (up_clock _ _ _ _ _ _ _ Hu0); apply Z.le_refl | lia |].
         -- eapply G_idle; eassumption.
         -- eapply hole_ok_intro; [exact Hk1 | exact Hl | exact Hdead | exact Htp | rewrite Est; reflexivity | rewrite Htask; reflexivity].
+        -- intros kk Hkk Hm. rewrite Hk in Hkk. injection Hkk as <-. exists k. split; [exact Hk1|].
+           unfold mu in *. rewrite Etb1.
+           rewrite (up_tq _ _ _ _ _ _ _ Hu0). rewrite (qsum_pop _ _ _ _ Hcnt) in Hm. lia.
       * destruct (J_pop_start mx tnt x d w t k q' tz HJ Hq Hk Hl Htask Hncc HQ' Hcnt Em) as (HJ1 & Ecc1 & Ets1 & Etb1 & Hk1 & Hb1).
+        pose proof (pop_start_rho x q' tz w k Hk Hl Htask Hcnt) as Hr1.
         cbv zeta in *. set (xg := pop_start x 0 q' (Z.to_nat tz) w k) in *.
         eapply (wl_chain f tnt x xg d w acc [EB (Z.to_nat tz) (BStart (Z.of_nat w))] t HWL);
-          [exact HJ1 | exact Hq | | | exact Ecc1 | exact Hncc | congruence | exact Etb1].
+          [exact HJ1 | exact Hq | | | exact Ecc1 | exact Hncc | congruence | exact Etb1 | apply Z.le_refl | lia |].
         -- right. right. eexists w, _. split; [exact Hk1|]. split; [exact Hl|]. right. split; [reflexivity|].
            cbn [k_st]. rewrite Est. reflexivity.
         -- eapply hole_ok_intro; [exact Hk1 | exact Hl | exact Hdead | reflexivity | cbn [k_st]; rewrite Est; reflexivity | exact Hb1].
+        -- intros kk Hkk Hm. rewrite Hk in Hkk. injection Hkk as <-. eexists. split; [exact Hk1|].
+           unfold mu in *. rewrite Etb1. assert (all_items (pw_tq xg) = all_items q') as -> by reflexivity.
+           rewrite (qsum_pop _ _ _ _ Hcnt) in Hm. unfold tasklen in *. rewrite Htask in Hm. cbn [k_task]. unfold blen in Hm. lia.
     + (* the queue is empty: the worker exits *)
       pose proof (J_pop_none mx tnt x d (Some w) t q' HJ HQ' Hnil Hnil') as HJ1.
       pose proof (j_p _ _ _ _ _ _ _ HJ) as [P1 P2 P3 P4 P5 P6 P7 P8 P9 P10 P11 P12].
@@ -284,8 +339,9 @@ Proof.
       assert ((p_keep (get_pool x 0) <=? sat_sub (pw_clock x) (k_create k)) && (p_min (get_pool x 0) <? p_running (get_pool x 0)) = true) as ->.
       { unfold sat_sub. apply andb_true_iff. split; lia. }
       cbn [orb]. exists (set_tq x q'), [], WReturn. rewrite app_nil_r. split; [reflexivity|]. cbn [fold_left].
-      split; [exact HJ1|]. split; [left; autorewrite with pw; exact Hnil'|]. split; [reflexivity|]. split; [reflexivity|].
-      exists k. autorewrite with pw. auto 10.
+      split; [exact HJ1|]. split; [left; autorewrite with pw; exact Hnil'|]. split; [reflexivity|]. split; [reflexivity|]. split; [apply Z.le_refl|]. split.
+      { exists k. autorewrite with pw. auto 10. }
+      split; [|discriminate]. cbn [wl_cost]. unfold rho. autorewrite with pw. rewrite Hnil, Hnil'. lia.
 Qed.
 
 Theorem wloop_J : forall f, WL f.
